@@ -129,6 +129,7 @@ func TestVerifC16Grammar(t *testing.T) {
 	for _, line := range []string{
 		"// plain text", "//@Query(x)", "// @ Query(x)", "// text @Query(x)", "// @", "// @(x)", "// @Query(x", "// email me @home",
 		"/// @Query(x)", "// @Query (x) trailing", "//", "// @Query(x, {a:1)",
+		"// /users/{id} is the path", "// see https://example.com/docs/", "// a/b/", "//   padded   ",
 	} {
 		cases++
 		block := gast.CommentBlock{FileName: "f.go", Comments: []gast.CommentNode{{Text: line, Position: gast.CommentPosition{StartLine: 1, EndLine: 1, EndCol: len(line)}}}}
@@ -141,6 +142,12 @@ func TestVerifC16Grammar(t *testing.T) {
 		wantAttr := line == "// @Query (x) trailing"
 		if got := len(holder.Attributes()) == 1; got != wantAttr {
 			report("C16-free-text-yields-attribute", fmt.Sprintf("line %q: %d attributes", line, len(holder.Attributes())))
+		}
+		// free text is kept as written: the comment marker and surrounding blanks go, nothing else
+		if !wantAttr && len(holder.NonAttributeComments()) == 1 {
+			if got, want := holder.NonAttributeComments()[0].Value, strings.Trim(strings.TrimPrefix(line, "//"), " "); got != want {
+				report("C16-free-text-altered", fmt.Sprintf("line %q: kept as %q, want %q", line, got, want))
+			}
 		}
 		if !wantAttr && (len(holder.NonAttributeComments()) != 1 || !strings.Contains(line, strings.TrimSpace(holder.NonAttributeComments()[0].Value))) {
 			report("C16-free-text-lost", fmt.Sprintf("line %q: free text %v", line, holder.NonAttributeComments()))
